@@ -78,6 +78,113 @@ pub struct Replay {
     pub case: Case,
 }
 
+/// replay file of the sequential engines (the case is engine-specific JSON)
+#[derive(Clone, Debug, Serialize, Deserialize)]
+pub struct Replay2 {
+    pub property: String,
+    pub oracle: String,
+    pub msg: String,
+    pub engine: String,
+    pub tree_rev: String,
+    pub case: Value,
+}
+
+fn hash_json(v: &Value) -> u64 {
+    use std::hash::{Hash, Hasher};
+    let mut h = std::collections::hash_map::DefaultHasher::new();
+    v.to_string().hash(&mut h);
+    h.finish()
+}
+
+/// Generic loop of a sequential (E2) check inside a worker process: generate with proptest, log
+/// the case before running it, run `test`, shrink a failure with proptest's value tree.
+/// `test` returns Ok((non-trivial?, counters)) or Err(message).
+pub fn e2_loop<C, St>(part: &str, prop: &str, strat: St, widx: u64, ncases: usize, seed: u64, outdir: &str, test: impl Fn(&C) -> Result<(bool, Value), String>) -> i32
+where
+    C: Serialize + Clone + std::fmt::Debug,
+    St: Strategy<Value = C>,
+{
+    install();
+    let mut runner = TestRunner::new_with_rng(Config { failure_persistence: None, ..Config::default() }, TestRng::from_seed(RngAlgorithm::ChaCha, &seed_bytes(seed, widx, part)));
+    let mut res = WorkerResult::default();
+    let mut seen: HashSet<u64> = HashSet::new();
+    let logp = format!("{}/w{}.last", outdir, widx);
+    let run = |c: &C| -> Result<(bool, Value), String> {
+        match std::panic::catch_unwind(std::panic::AssertUnwindSafe(|| test(c))) {
+            Ok(r) => r,
+            Err(e) => Err(format!("panic: {}", e.downcast_ref::<String>().cloned().or(e.downcast_ref::<&str>().map(|s| s.to_string())).unwrap_or_default())),
+        }
+    };
+    for _ in 0..ncases {
+        let mut tree = match strat.new_tree(&mut runner) {
+            Ok(t) => t,
+            Err(e) => {
+                eprintln!("generator error: {}", e);
+                return 2;
+            }
+        };
+        let case = tree.current();
+        let cj = serde_json::to_value(&case).unwrap();
+        {
+            let rp = Replay2 { property: prop.into(), oracle: "E2".into(), msg: "the process died while running this case".into(), engine: part.into(), tree_rev: String::new(), case: cj.clone() };
+            let mut f = std::fs::File::create(&logp).unwrap();
+            let _ = f.write_all(serde_json::to_string(&rp).unwrap().as_bytes());
+        }
+        res.evaluations += 1;
+        match run(&case) {
+            Ok((nt, counters)) => {
+                add_counters(&mut res.counters, &counters);
+                if nt {
+                    let h = hash_json(&cj);
+                    if seen.insert(h) {
+                        res.nontrivial.push(h);
+                        if res.samples.len() < 2 {
+                            res.samples.push(cj);
+                        }
+                    }
+                }
+            }
+            Err(msg) => {
+                let mut best = (case.clone(), msg);
+                let mut steps = 0;
+                if tree.simplify() {
+                    loop {
+                        steps += 1;
+                        if steps > 2000 {
+                            break;
+                        }
+                        let c = tree.current();
+                        match run(&c) {
+                            Err(m) => {
+                                best = (c, m);
+                                if !tree.simplify() {
+                                    break;
+                                }
+                            }
+                            Ok(_) => {
+                                if !tree.complicate() {
+                                    break;
+                                }
+                            }
+                        }
+                    }
+                }
+                let cj = serde_json::to_value(&best.0).unwrap();
+                let rp = Replay2 { property: prop.into(), oracle: "E2".into(), msg: best.1.clone(), engine: part.into(), tree_rev: tree_rev(), case: cj.clone() };
+                let dir = format!("{}/work/replays", VERIF);
+                let _ = std::fs::create_dir_all(&dir);
+                let path = format!("{}/{}-{:016x}.json", dir, part, hash_json(&cj));
+                std::fs::write(&path, serde_json::to_string_pretty(&rp).unwrap()).unwrap();
+                res.violation = Some((prop.into(), format!("E2:{}", part), best.1, path));
+                break;
+            }
+        }
+    }
+    std::fs::write(format!("{}/w{}.json", outdir, widx), serde_json::to_string(&res).unwrap()).unwrap();
+    let _ = std::fs::remove_file(&logp);
+    0
+}
+
 pub fn reported_property(check: &Check, f: &Failure) -> String {
     if check.deciding.contains(&f.oracle.as_str()) {
         check.id.to_string()
@@ -334,8 +441,9 @@ pub fn worker(id: &str, widx: u64, ncases: usize, seed: u64, outdir: &str) -> i3
         (check.fixup)(&mut case);
         // log the case before running it: if the process dies, this is the replay
         {
+            let rp = Replay { property: if check.deciding.contains(&"O-total") { id.to_string() } else { "C13".into() }, oracle: "O-total".into(), msg: "the process died while running this case".into(), engine: "E1".into(), tree_rev: String::new(), case: case.clone() };
             let mut f = std::fs::File::create(&logp).unwrap();
-            let _ = f.write_all(serde_json::to_string(&case).unwrap().as_bytes());
+            let _ = f.write_all(serde_json::to_string(&rp).unwrap().as_bytes());
         }
         let out = exec::run_case(&case, false);
         res.evaluations += 1;
@@ -479,64 +587,55 @@ pub fn run_replay_child(path: &Path) -> (i32, String) {
     (o.status.code().unwrap_or(134), String::from_utf8_lossy(&o.stdout).to_string())
 }
 
-pub fn parent(id: &str, tier: &str) -> i32 {
-    let t0 = Instant::now();
-    let seed = default_seed();
-    let check = e1_check(id).expect("unknown E1 check");
-    let total = match tier {
-        "thorough" => check.thorough,
-        _ => check.quick,
-    };
-    let total = std::env::var("VCHECK_CASES").ok().and_then(|s| s.parse().ok()).unwrap_or(total);
-    let nworkers: usize = std::env::var("VCHECK_WORKERS").ok().and_then(|s| s.parse().ok()).unwrap_or_else(|| std::thread::available_parallelism().map(|n| n.get()).unwrap_or(8)).max(1);
+/// one generated tier of a check: an E1 profile or a sequential (E2) engine
+pub struct Part {
+    pub name: String,
+    pub cases: usize,
+    pub rule: String,
+    pub workers: usize,
+}
+
+pub fn nworkers() -> usize {
+    std::env::var("VCHECK_WORKERS").ok().and_then(|s| s.parse().ok()).unwrap_or_else(|| std::thread::available_parallelism().map(|n| n.get()).unwrap_or(8)).max(1)
+}
+
+#[derive(Default)]
+pub struct PartOut {
+    pub merged: WorkerResult,
+    pub nontrivial: usize,
+    pub violations: usize,
+    pub inconclusive: bool,
+}
+
+/// spawn the workers of one part, merge their results, report violations / known findings
+pub fn run_part(id: &str, part: &Part, seed: u64, deciding_total: bool) -> PartOut {
     let findings = load_findings();
-    // 1. replay tier: committed regression inputs of this property
-    let mut replayed = 0;
-    for p in replay_dir(id) {
-        let (code, out) = run_replay_child(&p);
-        replayed += 1;
-        if code == 1 || code >= 128 || code < 0 {
-            // a listed open finding reproduces: KNOWN-FINDING, otherwise a violation
-            let known = findings.iter().find(|k| k.status == "open" && !k.contains.is_empty() && out.contains(&k.contains));
-            if let Some(k) = known {
-                println!("KNOWN-FINDING: property={} {}", k.property, k.what);
-                continue;
-            }
-            print!("{}", out);
-            println!("VIOLATION property={} replay={}", id, p.display());
-            write_evidence(id, tier, seed, "exploration", json!({"evaluations": replayed, "distinct_nontrivial": replayed, "rule": "replay tier", "samples": [p.display().to_string()], "failed_replay": p.display().to_string()}), e1_assumptions(), t0.elapsed().as_secs_f64(), 1);
-            return 1;
-        } else if code != 0 {
-            eprintln!("replay {} inconclusive (exit {})", p.display(), code);
-            return 2;
-        }
-    }
-    // 2. generated tier
-    let outdir = format!("{}/work/run-{}-{}", VERIF, id, std::process::id());
+    let outdir = format!("{}/work/run-{}-{}", VERIF, part.name, std::process::id());
     let _ = std::fs::remove_dir_all(&outdir);
     std::fs::create_dir_all(&outdir).unwrap();
     let exe = std::env::current_exe().unwrap();
-    let per = (total + nworkers - 1) / nworkers;
+    let nw = part.workers.max(1);
+    let per = (part.cases + nw - 1) / nw;
     let mut children = Vec::new();
-    for w in 0..nworkers {
+    for w in 0..nw {
         let errf = std::fs::File::create(format!("{}/w{}.err", outdir, w)).unwrap();
         let ch = std::process::Command::new(&exe)
-            .args(["worker", id, &w.to_string(), &per.to_string(), &seed.to_string(), &outdir])
+            .args(["worker", &part.name, &w.to_string(), &per.to_string(), &seed.to_string(), &outdir])
             .stdout(std::process::Stdio::null())
             .stderr(errf)
             .spawn()
             .unwrap();
         children.push(ch);
     }
-    let mut merged = WorkerResult::default();
+    let mut out = PartOut::default();
     let mut all_nt: HashSet<u64> = HashSet::new();
     let mut died: Vec<(usize, String)> = Vec::new();
-    let mut inconclusive = false;
     for (w, mut ch) in children.into_iter().enumerate() {
         let st = ch.wait().unwrap();
         let rp = format!("{}/w{}.json", outdir, w);
         match std::fs::read_to_string(&rp).ok().and_then(|s| serde_json::from_str::<WorkerResult>(&s).ok()) {
             Some(r) => {
+                let merged = &mut out.merged;
                 merged.evaluations += r.evaluations;
                 merged.discarded_budget += r.discarded_budget;
                 for h in r.nontrivial {
@@ -560,106 +659,176 @@ pub fn parent(id: &str, tier: &str) -> i32 {
                     *merged.known.entry(k).or_insert(0) += v;
                 }
                 merged.known_what.extend(r.known_what);
-                if merged.samples.len() < 4 {
+                if merged.samples.len() < 3 {
                     merged.samples.extend(r.samples.into_iter().take(1));
                 }
                 if merged.violation.is_none() {
                     merged.violation = r.violation;
                 }
                 if r.hung {
-                    inconclusive = true;
+                    out.inconclusive = true;
                 }
             }
             None => {
-                // the worker died (abort, signal): the last logged case is the replay
                 let last = format!("{}/w{}.last", outdir, w);
                 if Path::new(&last).exists() {
                     died.push((w, last));
                 } else {
-                    eprintln!("worker {} ended with {:?} and left no result", w, st);
-                    inconclusive = true;
+                    eprintln!("worker {} of {} ended with {:?} and left no result", w, part.name, st);
+                    out.inconclusive = true;
                 }
             }
         }
     }
-    let mut violations = 0;
-    let mut code = 0;
-    for (id_, n) in &merged.known {
-        println!("KNOWN-FINDING: {} (signature {} hit {} times, excluded from the search)", merged.known_what.get(id_).cloned().unwrap_or_default(), id_, n);
+    out.nontrivial = all_nt.len();
+    for (id_, n) in &out.merged.known {
+        println!("KNOWN-FINDING: {} (signature {} hit {} times, excluded from the search)", out.merged.known_what.get(id_).cloned().unwrap_or_default(), id_, n);
     }
-    if let Some((prop, oracle, msg, path)) = &merged.violation {
+    if let Some((prop, oracle, msg, path)) = &out.merged.violation {
         println!("oracle {} : {}", oracle, msg);
         println!("VIOLATION property={} replay={}", prop, path);
-        violations += 1;
-        code = 1;
+        out.violations += 1;
     }
     for (w, last) in &died {
-        // confirm in a fresh child that the logged case kills the process
-        let case: Option<Case> = std::fs::read_to_string(last).ok().and_then(|s| serde_json::from_str(&s).ok());
+        // the worker died (abort, signal): its last logged case is the replay; confirm in a child
         let err = std::fs::read_to_string(format!("{}/w{}.err", outdir, w)).unwrap_or_default();
         let tail: String = err.lines().rev().take(6).collect::<Vec<_>>().into_iter().rev().collect::<Vec<_>>().join(" | ");
-        if let Some(case) = case {
-            let rp = Replay { property: "C13".into(), oracle: "O-total".into(), msg: format!("the process died while running this case: {}", tail), engine: "E1".into(), tree_rev: tree_rev(), case };
-            let dir = format!("{}/work/replays", VERIF);
-            let _ = std::fs::create_dir_all(&dir);
-            let path = format!("{}/{}-death-{:016x}.json", dir, id, rp.case.hash64());
-            std::fs::write(&path, serde_json::to_string_pretty(&rp).unwrap()).unwrap();
-            let (c, out) = run_replay_child(Path::new(&path));
-            if c == 1 || c >= 128 || c < 0 {
-                let known = findings.iter().find(|k| k.status == "open" && !k.contains.is_empty() && (out.contains(&k.contains) || tail.contains(&k.contains)));
-                if let Some(k) = known {
-                    println!("KNOWN-FINDING: property={} {}", k.property, k.what);
-                    continue;
-                }
-                let prop = if check.deciding.contains(&"O-total") { id.to_string() } else { "C13".to_string() };
-                println!("worker {} died: {}", w, tail);
-                println!("VIOLATION property={} replay={}", prop, path);
-                violations += 1;
-                code = 1;
-            } else {
-                eprintln!("worker {} died ({}) but its last case does not reproduce it", w, tail);
-                inconclusive = true;
+        let dir = format!("{}/work/replays", VERIF);
+        let _ = std::fs::create_dir_all(&dir);
+        let body = std::fs::read_to_string(last).unwrap_or_default();
+        let path = format!("{}/{}-death-{:016x}.json", dir, part.name, hash_json(&Value::String(body.clone())));
+        let body = body.replacen("the process died while running this case", &format!("the process died while running this case: {}", tail.replace('"', "'").replace('\\', "/")), 1);
+        std::fs::write(&path, body).unwrap();
+        let (c, o) = run_replay_child(Path::new(&path));
+        if c == 1 || c >= 128 || c < 0 {
+            let known = findings.iter().find(|k| k.status == "open" && !k.contains.is_empty() && (o.contains(&k.contains) || tail.contains(&k.contains)));
+            if let Some(k) = known {
+                println!("KNOWN-FINDING: property={} {}", k.property, k.what);
+                continue;
             }
+            let prop = if deciding_total || !part.name.starts_with('C') || part.name.len() > 3 { id.to_string() } else { "C13".to_string() };
+            println!("worker {} died: {}", w, tail);
+            println!("VIOLATION property={} replay={}", prop, path);
+            out.violations += 1;
         } else {
-            inconclusive = true;
+            eprintln!("worker {} died ({}) but its last case does not reproduce it", w, tail);
+            out.inconclusive = true;
+        }
+    }
+    let _ = std::fs::remove_dir_all(&outdir);
+    out
+}
+
+pub fn parent(id: &str, tier: &str) -> i32 {
+    let t0 = Instant::now();
+    let seed = default_seed();
+    let findings = load_findings();
+    let thorough = tier == "thorough";
+    // 1. replay tier: committed regression inputs of this property
+    let mut replayed = 0;
+    for p in replay_dir(id) {
+        let (code, out) = run_replay_child(&p);
+        replayed += 1;
+        if code == 1 || code >= 128 || code < 0 {
+            let known = findings.iter().find(|k| k.status == "open" && !k.contains.is_empty() && out.contains(&k.contains));
+            if let Some(k) = known {
+                println!("KNOWN-FINDING: property={} {}", k.property, k.what);
+                continue;
+            }
+            print!("{}", out);
+            if !out.contains("VIOLATION") {
+                println!("VIOLATION property={} replay={}", id, p.display());
+            }
+            write_evidence(id, tier, seed, "exploration", json!({"evaluations": replayed, "distinct_nontrivial": replayed, "rule": "replay tier (committed regression inputs)", "samples": [p.display().to_string()], "failed_replay": p.display().to_string()}), e1_assumptions(), t0.elapsed().as_secs_f64(), 1);
+            return 1;
+        } else if code != 0 {
+            eprintln!("replay {} inconclusive (exit {})", p.display(), code);
+            return 2;
+        }
+    }
+    // 2. generated tiers
+    let parts = crate::e2::parts(id, thorough);
+    if parts.is_empty() {
+        eprintln!("no check for {}", id);
+        return 2;
+    }
+    let deciding_total = e1_check(id).map(|c| c.deciding.contains(&"O-total")).unwrap_or(true);
+    let mut cov = Map::new();
+    let mut evaluations = replayed;
+    let mut nontrivial = 0;
+    let mut violations = 0;
+    let mut inconclusive = false;
+    let mut samples: Vec<Value> = Vec::new();
+    let mut rules: Vec<String> = Vec::new();
+    let mut per_part = Map::new();
+    for part in &parts {
+        let o = run_part(id, part, seed, deciding_total);
+        evaluations += o.merged.evaluations;
+        nontrivial += o.nontrivial;
+        violations += o.violations;
+        inconclusive |= o.inconclusive;
+        for s in o.merged.samples.iter().take(3) {
+            samples.push(json!({"engine": part.name, "case": s}));
+        }
+        rules.push(format!("[{}] {}", part.name, part.rule));
+        per_part.insert(
+            part.name.clone(),
+            json!({
+                "evaluations": o.merged.evaluations,
+                "distinct_nontrivial": o.nontrivial,
+                "discarded_budget": o.merged.discarded_budget,
+                "modes": o.merged.modes,
+                "strategies": o.merged.strategies,
+                "classes": o.merged.counters,
+                "known_findings_excluded": o.merged.known,
+                "workers": part.workers,
+            }),
+        );
+        if o.violations > 0 {
+            break;
         }
     }
     let wall = t0.elapsed().as_secs_f64();
-    let mut cov = Map::new();
-    cov.insert("evaluations".into(), json!(merged.evaluations + replayed));
-    cov.insert("distinct_nontrivial".into(), json!(all_nt.len()));
-    cov.insert("rule".into(), json!(check.rule));
-    cov.insert("samples".into(), json!(merged.samples));
+    cov.insert("evaluations".into(), json!(evaluations));
+    cov.insert("distinct_nontrivial".into(), json!(nontrivial));
+    cov.insert("rule".into(), json!(rules.join(" || ")));
+    cov.insert("samples".into(), json!(samples));
     cov.insert("replayed_regression_inputs".into(), json!(replayed));
-    cov.insert("discarded_budget".into(), json!(merged.discarded_budget));
-    cov.insert("modes".into(), json!(merged.modes));
-    cov.insert("strategies".into(), json!(merged.strategies));
-    cov.insert("classes".into(), json!(merged.counters));
-    cov.insert("known_findings_excluded".into(), json!(merged.known));
-    cov.insert("workers".into(), json!(nworkers));
+    cov.insert("parts".into(), Value::Object(per_part));
     cov.insert("load_step_bound".into(), json!(LOAD_BOUND));
     cov.insert("solo_step_bound".into(), json!(SOLO_BOUND));
-    cov.insert("executions_per_second".into(), json!((merged.evaluations as f64 / wall.max(0.001)).round()));
-    write_evidence(id, tier, seed, "exploration", Value::Object(cov), e1_assumptions(), wall, violations);
-    let _ = std::fs::remove_dir_all(&outdir);
-    if code == 0 && inconclusive {
+    cov.insert("executions_per_second".into(), json!((evaluations as f64 / wall.max(0.001)).round()));
+    let assumptions = if parts.iter().any(|p| e1_check(&p.name).is_some()) { e1_assumptions() } else { crate::e2::assumptions(id) };
+    write_evidence(id, tier, seed, "exploration", Value::Object(cov), assumptions, wall, violations);
+    if violations > 0 {
+        return 1;
+    }
+    if inconclusive {
         eprintln!("inconclusive (worker hang or unexplained death)");
         return 2;
     }
-    if code == 0 {
-        println!("{} {}: {} executions, {} distinct non-trivial, {} over budget, {:.1}s: held", id, tier, merged.evaluations, all_nt.len(), merged.discarded_budget, wall);
-    }
-    code
+    println!("{} {}: {} cases, {} distinct non-trivial, {:.1}s: held", id, tier, evaluations, nontrivial, wall);
+    0
 }
 
 pub fn replay(path: &str) -> i32 {
     install();
     let s = std::fs::read_to_string(path).expect("read replay file");
-    let rp: Replay = serde_json::from_str(&s).expect("parse replay file");
-    if rp.engine != "E1" {
-        eprintln!("not an E1 replay");
-        return 2;
+    let generic: Replay2 = serde_json::from_str(&s).expect("parse replay file");
+    if generic.engine != "E1" {
+        return match crate::e2::replay(&generic.engine, &generic.case) {
+            Ok(()) => {
+                println!("replay {}: held", path);
+                0
+            }
+            Err(m) => {
+                println!("oracle {} : {}", generic.engine, m);
+                println!("VIOLATION property={} replay={}", generic.property, path);
+                1
+            }
+        };
     }
+    let rp: Replay = serde_json::from_str(&s).expect("parse replay file");
     let trace = std::env::var("VCHECK_TRACE").is_ok();
     let out = exec::run_case(&rp.case, trace);
     if trace {
